@@ -8,7 +8,7 @@
    "run ... = Ok out" holds for every program that does not close the root range itself
    ([run_total]): the model never reports a Go panic ([fanout_full]) and the fuelled loops never
    run out of fuel ([no_fuel_exhaustion]). *)
-From Coq Require Import List Arith Bool ZArith.
+From Coq Require Import List Arith Bool ZArith Permutation.
 From GoPdf.Base Require Import Res.
 From GoPdf.C17 Require Import KTDepths.
 From GoPdf.C16 Require Import PageTree PageTreeInst PageTreePre PTStruct PTMain PTReaders PTFuel PTFuel2 PTPageNum PTNoPanic PTMerge PTSafe PTPn3.
@@ -171,6 +171,16 @@ Theorem page_numbers_full : forall D old choose choose_rot, 2 <= D ->
   forall k v, In (k, v) (o_log out) <-> In (k, v) (spec_log prog).
 Proof. exact page_numbers_nested. Qed.
 Print Assumptions page_numbers_full.
+
+(* stronger: every callback is called exactly as often as the specification says (once per
+   registration) - the two logs are the same up to the order of the calls.  (The order itself
+   differs: a callback whose page number is not known yet is called later, when the ranges before
+   it are closed.) *)
+Theorem page_numbers_exact : forall D old choose choose_rot, 2 <= D ->
+  forall prog out, NoDup (append_ids prog) -> run D old choose choose_rot prog = Ok out ->
+  Permutation (o_log out) (spec_log prog).
+Proof. exact page_numbers_exact. Qed.
+Print Assumptions page_numbers_exact.
 
 (* programs that use the root range only (no NewRange; NextPageNumber, appends and operations on
    writers that do not exist in any order): the log is the specification's, in the same order *)
